@@ -47,6 +47,18 @@ def decls():
                                     "properties": {"attributes": [{"name": a, "type": t[1], "size": t[2]} for a, t in attrs]}}, "use": q(s, n)})
                 out.append({"kind": "table", "ddl": "CREATE %sTYPE %s AS TABLE (%s);" % (orr, q(s, n), body),
                             "exp": {"schema": s, "type_name": n}, "tcols": [[a, t[1], t[2]] for a, t in attrs], "use": q(s, n)})
+        # PostgreSQL base types (no AS): schema and name as written, the properties as a dict
+        for orr in ("", "OR REPLACE "):
+            out.append({"kind": "basetype", "ddl": "CREATE %sTYPE %s (INTERNALLENGTH = 16, INPUT = box_in, OUTPUT = box_out);" % (orr, q(s, n)),
+                        "exp": {"schema": s, "type_name": n, "base_type": None, "properties": {"INTERNALLENGTH": "16", "INPUT": "box_in", "OUTPUT": "box_out"}},
+                        "use": q(s, n)})
+        # domains over an ENUM
+        out.append({"kind": "domain", "ddl": "CREATE DOMAIN %s AS ENUM ('a', 'b', 'c');" % q(s, n),
+                    "exp": {"schema": s, "domain_name": n, "base_type": "ENUM", "properties": {"values": ["'a'", "'b'", "'c'"]}}, "use": q(s, n)})
+        # table types whose column names are keyword-shaped
+        out.append({"kind": "table", "ddl": "CREATE TYPE %s AS TABLE (Type int, Key varchar(5), Comment int, schema int, default int);" % q(s, n),
+                    "exp": {"schema": s, "type_name": n},
+                    "tcols": [["Type", "int", None], ["Key", "varchar", 5], ["Comment", "int", None], ["schema", "int", None], ["default", "int", None]], "use": q(s, n)})
         # table types whose columns carry options: they must be the columns CREATE TABLE reports for the same body
         for body in ("id int PRIMARY KEY, nn varchar(5) NOT NULL, d int DEFAULT 1", "k decimal(10,2) NOT NULL DEFAULT 0, u varchar(9) UNIQUE",
                      "a int NULL, b timestamp DEFAULT now() NOT NULL"):
